@@ -271,6 +271,8 @@ class Exec(CallsMixin, Interp):
                                   (base.kind.cls, t.attr, getattr(node, 'lineno', '?')))
             if isinstance(v, PyObj):
                 v = self.empty_of(fk, v)
+            v = self.coerce_checked(v, fk, 'store %s.%s@%s: value not None' %
+                                    (base.kind.cls, t.attr, getattr(node, 'lineno', '?')), node)
             self.heap_write(base, key, fk, v)
             self.p.written.add(key)
             return
@@ -534,6 +536,10 @@ class Exec(CallsMixin, Interp):
                 return 'range', it
             raise Unsupported('iteration over %r' % (it,))
         k = it.kind
+        if isinstance(k, K.Opt):
+            self.implicit_raise(z3.Not(K.opt_isnone(it)), 'TypeError', "'NoneType' object is not iterable", None)
+            it = K.opt_inner(it)
+            k = it.kind
         if isinstance(k, K.Seq):
             return 'seq', it
         if isinstance(k, K.Tuple):
